@@ -273,6 +273,20 @@ def gen_descs(ctx):
       ops=[dict(op="fit", opt="sgd", lr=0.05, target="anti"), dict(op="fit", opt="sgd", lr=0.002, target="const_hi"),
            dict(op="fit", opt="sgd", lr=5.0, target="const_hi")],
       seed=6))
+  # ensemble with a linear combination, no output calibration and exactly ONE bound that excludes 0 (seeded change
+  # C03-m6: the combiner lost its normalisation, weights no longer summed to 1, outputs fell below output_min)
+  for lo_, hi_, tgt in ((1.0, None, "const_lo"), (None, -1.0, "const_hi")):
+    a_ = lo_ if lo_ is not None else hi_ - 3.0
+    out.append(dict(
+        model=dict(kind="ensemble", structure="explicit", param="all_vertices", interpolation="hypercube",
+                   output_calibration=False, random_seed=7, use_linear_combination=True, separate_calibrators=True,
+                   num_lattices=2, lattice_rank=2, lattices=[["a", "d"], ["a", "c"]],
+                   output_min=lo_, output_max=hi_, output_init=[a_, a_ + 3.0]),
+        features=[dict(name="a", type="num", mono="increasing", dir=1, kps=[0.0, 0.5, 1.0], default=None, ls=2),
+                  dict(name="d", type="num", mono=0, dir=0, kps=[0.0, 1.0, 2.0], default=None, ls=2),
+                  dict(name="c", type="cat", nb=3, pairs=[[0, 1], [1, 2]], default=None, ls=2)],
+        ops=[dict(op="fit", opt="sgd", lr=0.05, target="anti"), dict(op="fit", opt="sgd", lr=0.002, target=tgt),
+             dict(op="fit", opt="sgd", lr=0.05, target="anti")], seed=8))
   # fixed kronecker_factored single-lattice models (the composed Coq model cal_kfl_eval is compared on them in every
   # run): hostile histories that flip the sign of the scale, new-style AND legacy (per-variable) optimizers
   kfl_feats = [dict(name="a", type="num", mono="increasing", dir=1, kps=[0.0, 0.5, 1.0], default=None, ls=2),
